@@ -606,7 +606,12 @@ func (mgr *Manager) invalidateTags(updatedStreams, resetStreams, addedStreams bi
 			//TODO: is a matching stream really uncertain?
 			tin.Uncertain = mgr.allStreams
 		} else if ti.features.MainFeatures&^query.FeatureFilterID == 0 {
-			continue
+			// only the set of existing stream ids matters for this tag
+			if addedStreams.IsZero() {
+				continue
+			}
+			tin.Uncertain = ti.Uncertain.Copy()
+			tin.Uncertain.Or(addedStreams)
 		} else {
 			tin.Uncertain = ti.Uncertain.Copy()
 			tin.Uncertain.Or(addedStreams)
@@ -1268,6 +1273,7 @@ func (mgr *Manager) UpdateTag(name string, operation UpdateTagOperation) error {
 					return fmt.Errorf("unknown stream id %d", maxUsedStreamID)
 				}
 				newTag := *tag
+				prevUncertain := tag.Uncertain
 				newTag.Matches = tag.Matches.Copy()
 				newTag.Uncertain = tag.Uncertain.Copy()
 				// update mark streamid tag matches without parsing the definition again
@@ -1329,7 +1335,7 @@ func (mgr *Manager) UpdateTag(name string, operation UpdateTagOperation) error {
 				tag = &newTag
 				mgr.tags[name] = tag
 				mgr.inheritTagUncertainty()
-				mgr.tags[name].Uncertain = bitmask.LongBitmask{}
+				mgr.tags[name].Uncertain = prevUncertain
 				mgr.startTaggingJobIfNeeded()
 				mgr.startConverterJobIfNeeded()
 			}
